@@ -66,7 +66,7 @@ def fs_model(I):
                 names.append(x.rsplit("/", 1)[1])
         return ListVal(names)
     I.ext["os.path"] = {"join": Builtin("os.path.join", join), "isdir": Builtin("isdir", lambda ctx, d: d in fs(ctx)["dirs"]),
-                        "abspath": Builtin("abspath", lambda ctx, d: d), "exists": Builtin("exists", None)}
+                        "abspath": Builtin("abspath", lambda ctx, d: __import__("posixpath").normpath(d) if isinstance(d, str) and d.startswith("/") else d), "exists": Builtin("exists", None)}
     I.ext["os"].update({"mkdir": Builtin("os.mkdir", mkdir), "listdir": Builtin("os.listdir", listdir)})
 
 
@@ -320,9 +320,141 @@ class RestoreEntity(Contract):
 CONTRACTS = [RestoreHolder(), RestoreEntity()]
 
 
+class _SimInit(Contract):
+    """call-site contract of Simulation.__init__ as restore_simulation uses it: the simulation gets the populations instantiated for it"""
+    name = "openfisca_core.simulations.simulation.Simulation.__init__"
+    prop = ()
+
+    def outcomes(self, I, ctx, a, old):
+        a["self"].fields["populations"] = a["populations"]
+        a["self"].fields["tax_benefit_system"] = a["tax_benefit_system"]
+        ctx.ghost["new_simulation"] = a["self"]
+        return ("return", None)
+
+    def post(self, I, ctx, a, out, old):
+        return []
+
+
+def _orch_world(I, ctx, groups=2):
+    from .c18_engine import rec
+    R = I.resolve_qualified
+    ent = lambda key, person: Obj(R("openfisca_core.entities.entity.Entity" if person else "openfisca_core.entities.group_entity.GroupEntity"),
+                                  {"key": key, "is_person": person}, label="entity:" + key)
+    mkpop = lambda key, person, holders: Obj(R(POP if person else GPOP), {"entity": ent(key, person), "count": Sym(ctx.fresh_int("count_" + key)),
+                                                                            "_holders": dict_of([(h, Obj(R(HOLDER), {"name": h}, label="holder:" + h)) for h in holders])},
+                                              label="population:" + key)
+    pops = [("household", mkpop("household", False, ["rent"]))] if groups >= 1 else []
+    pops.append(("person", mkpop("person", True, ["salary", "age"])))
+    if groups >= 2:
+        pops.append(("family", mkpop("family", False, [])))
+    return pops
+
+
+class DumpSimulation(Contract):
+    name = f"{DUMP}.dump_simulation"
+    prop = ("C19",)
+    top_level = True
+    cases = ("new-directory", "existing-empty-directory", "directory-not-empty")
+    descr = ("dumping writes the structure of every population (once, under <directory>/__entities__) and every holder of every "
+             "population (once, under <directory>); a directory that is not empty is refused and nothing is written")
+
+    def setup(self, I, ctx, case):
+        pops = _orch_world(I, ctx)
+        sim = Obj(I.resolve_qualified("openfisca_core.simulations.simulation.Simulation"), {"populations": dict_of(pops)}, label="simulation")
+        f = S.fs_of(ctx)
+        f.setdefault("dirs", [])
+        if case != "new-directory":
+            f["dirs"] += ["/data", "/data/dump"]
+        if case == "directory-not-empty":
+            f["dirs"].append("/data/dump/leftover")
+        return {"simulation": sim, "directory": "/data/dump", "__pops": pops, "__case": case}
+
+    @staticmethod
+    def local_contracts():
+        from .c18_engine import rec
+        return {f"{DUMP}._dump_entity": rec(f"{DUMP}._dump_entity", "dump_entity", [("return", None)]),
+                f"{DUMP}._dump_holder": rec(f"{DUMP}._dump_holder", "dump_holder", [("return", None)])}
+
+    def post(self, I, ctx, a, out, old):
+        from .c18_engine import log_of
+        log = log_of(ctx)
+        if a["__case"] == "directory-not-empty":
+            return [("a-directory-that-is-not-empty-is-refused", out[0] == "raise" and out[1].cls.name == "ValueError"),
+                    ("and-nothing-is-written", not log)]
+        if out[0] != "return":
+            return [("no-exception", False)]
+        want = []
+        for key, pop in a["__pops"]:
+            want.append(("dump_entity", pop, "/data/dump/__entities__"))
+            for h in pop.fields["_holders"].items.values():
+                want.append(("dump_holder", h, "/data/dump"))
+        got = [(e["callee"], e["args"].get("population", e["args"].get("holder")), e["args"].get("directory")) for e in log]
+        dirs = S.fs_of(ctx)["dirs"]
+        return [("every-population-and-every-holder-is-dumped-exactly-once-to-the-right-place",
+                 len(got) == len(want) and all(g[0] == w[0] and g[1] is w[1] and g[2] == w[2] for g, w in zip(got, want))),
+                ("the-directories-exist", "/data/dump" in dirs and "/data/dump/__entities__" in dirs)]
+
+
+class RestoreSimulation(Contract):
+    name = f"{DUMP}.restore_simulation"
+    prop = ("C19",)
+    top_level = True
+    cases = ("two-group-entities", "one-group-entity", "no-group-entity")
+    descr = ("restoring builds a simulation of the given system, restores the structure of every population once from "
+             "<directory>/__entities__ (the person population has as many persons as the group structures say, when there are "
+             "any), and every variable directory once; the __entities__ directory is not taken for a variable")
+
+    def setup(self, I, ctx, case):
+        from .c18_engine import rec
+        groups = {"two-group-entities": 2, "one-group-entity": 1, "no-group-entity": 0}[case]
+        pops = _orch_world(I, ctx, groups)
+        table = dict_of(pops)
+        tbs = Opaque(None, "tax-benefit-system", {"getattr": lambda ctx2, nm: Builtin("instantiate_entities", lambda ctx3: table) if nm == "instantiate_entities" else None})
+        f = S.fs_of(ctx)
+        f.setdefault("dirs", [])
+        f["dirs"] += ["/data", "/data/dump", "/data/dump/__entities__", "/data/dump/salary", "/data/dump/rent"]
+        ctx.ghost["n_persons"] = ctx.fresh_int("persons_in_the_dump")
+        person = [p for _, p in pops if p.fields["entity"].fields["is_person"]][0]
+        return {"directory": "/data/dump", "tax_benefit_system": tbs, "__pops": pops, "__table": table, "__case": case, "__count0": person.fields["count"]}
+
+    @staticmethod
+    def local_contracts():
+        from .c18_engine import rec
+
+        def restored_count(I, ctx, a):
+            return None if a["population"].fields["entity"].fields["is_person"] else Sym(ctx.ghost["n_persons"])
+        return {_SimInit.name: _SimInit(),
+                f"{DUMP}._restore_entity": rec(f"{DUMP}._restore_entity", "restore_entity", [("return", restored_count)]),
+                f"{DUMP}._restore_holder": rec(f"{DUMP}._restore_holder", "restore_holder", [("return", None)])}
+
+    def post(self, I, ctx, a, out, old):
+        from .c18_engine import log_of
+        if out[0] != "return" or not isinstance(out[1], Obj):
+            return [("returns-a-simulation", False)]
+        sim = out[1]
+        ents = log_of(ctx, "restore_entity")
+        hold = log_of(ctx, "restore_holder")
+        pops = [p for _, p in a["__pops"]]
+        person = [p for p in pops if p.fields["entity"].fields["is_person"]][0]
+        res = [("a-simulation-of-the-given-system-with-its-populations", sim.fields.get("populations") is a["__table"] and sim.fields.get("tax_benefit_system") is a["tax_benefit_system"]),
+               ("every-population's-structure-is-restored-exactly-once-from-the-entities-directory",
+                len(ents) == len(pops) and all(any(e["args"]["population"] is p for e in ents) for p in pops)
+                and all(e["args"]["directory"] == "/data/dump/__entities__" for e in ents)),
+               ("every-variable-directory-is-restored-once-into-this-simulation-and-__entities__-is-not-a-variable",
+                sorted(str(e["args"]["variable_name"]) for e in hold) == ["rent", "salary"] and all(e["args"]["simulation"] is sim and e["args"]["directory"] == "/data/dump" for e in hold))]
+        if a["__case"] == "no-group-entity":
+            res.append(("without-group-structure-the-person-count-is-what-the-restored-identifiers-gave", person.fields.get("count") is a["__count0"]))
+        else:
+            res.append(("the-person-population-has-as-many-persons-as-the-group-structures-say", B._zb(B.eq_formula(I, ctx, person.fields.get("count"), Sym(ctx.ghost["n_persons"])))))
+        return res
+
+
+CONTRACTS += [DumpSimulation(), RestoreSimulation()]
+
+
 def _c19_probes(self, case):
     return [{"callee": self.name, "script": "import sys; sys.path.insert(0, '/verif/native')\nimport c19_replay\noutcome = c19_replay.run(call['scenario'])\n",
-             "scenario": sc} for sc in ("trailing-empty-group", "round-trip")]
+             "scenario": sc} for sc in ("trailing-empty-group", "round-trip", "no-group-entity")]
 
 
 for _c in CONTRACTS:
